@@ -30,6 +30,9 @@ ASSUME = ["reference semantics: unbounded integers, '/' = floor division, genera
           "enumerators and discriminators are kept inside [0, 2^32), array sizes inside [1, 64]"]
 
 
+AVOID = common.avoid_set(ID)
+
+
 class Doc(object):
     """A generated file: ordered items (kind, name, ast, value) + rendering."""
 
@@ -41,7 +44,7 @@ class Doc(object):
 @st.composite
 def docs(draw, isar=False):
     d = Doc()
-    inc = Doc() if (not isar and draw(st.booleans())) else None
+    inc = Doc() if draw(st.booleans()) else None
     # isar: shifts only in the documented shiftLeft(a, b) form (a raw '<<' would be re-read by every back-end
     # language with its own precedence)
     kw = dict(allow_octal=not isar, allow_shift=True, allow_neg=True, allow_rshift=not isar)
@@ -53,6 +56,11 @@ def docs(draw, isar=False):
         name = 'IK%d' % i
         env[name] = e.eval(env)
         inc.items.append(('const', name, e, env[name], None))
+    if inc and isar and 'isar_included_enumerator_reference' not in AVOID and draw(st.booleans()):
+        # an enum of the included file: the including file may name its enumerators (finding E1 while it is open)
+        for j, v in enumerate(draw(st.lists(st.integers(0, 40), min_size=1, max_size=3, unique=True))):
+            env['IE0_%s' % 'abc'[j]] = v
+            inc.items.append(('enumerator', 'IE0_%s' % 'abc'[j], Num(v), v, 'IE0'))
     n_const = draw(st.integers(2, 6))
     for i in range(n_const):
         e = draw(expr.expressions(dict(env), depth=draw(st.integers(1, 4)), **kw))
@@ -149,7 +157,17 @@ def render_prophy(d):
 
 def render_isar(d):
     syn = 'isar-func' if d.isar_func else 'isar'
+    files = {}
     out = ['<x>']
+    if d.inc:
+        inc = ['<x>'] + ['<constant name="%s" value="%s"/>' % (n, _xml(expr.render(e, syn, d.style)))
+                         for k, n, e, v, o in d.inc.items if k == 'const']
+        iens = [it for it in d.inc.items if it[0] == 'enumerator']
+        if iens:
+            inc.append('<enum name="IE0">%s</enum>' % ''.join(
+                '<enum-member name="%s" value="%d"/>' % (n, v) for k, n, e, v, o in iens))
+        files['inc.xml'] = '\n'.join(inc + ['</x>'])
+        out.append('<xi:include xmlns:xi="http://www.w3.org/2001/XInclude" href="inc.xml"/>')
     for k, n, e, v, o in d.items:
         if k == 'const':
             out.append('<constant name="%s" value="%s"/>' % (n, _xml(expr.render(e, syn, d.style))))
@@ -170,7 +188,8 @@ def render_isar(d):
         '<member name="%s" type="u8" discriminatorValue="%s"/>' % (n, _xml(expr.render(e, syn, d.style)))
         for k, n, e, v, o in discs))
     out.append('</x>')
-    return {'m.xml': '\n'.join(out)}
+    files['m.xml'] = '\n'.join(out)
+    return files
 
 
 def _xml(s):
@@ -191,7 +210,7 @@ def build(d, cpp=False):
     if cpp:
         args += ['--cpp_out', work, '--cpp_full_out', work]
     if d.inc:
-        args.insert(0, os.path.join(work, 'inc.prophy'))
+        args.insert(1 if d.isar else 0, os.path.join(work, 'inc.xml' if d.isar else 'inc.prophy'))
     nodes = pyh.run_prophyc(args)
     return work, files, nodes
 
@@ -446,6 +465,35 @@ def worker(widx, seed, tier, stats):
                          shrink=(tier == 'thorough'))
 
 
+def e1_reproduction(stats):
+    """Open finding E1 stays backed by a live reproduction (the generator avoids the shape while it is open)."""
+    if not runner.known_findings().is_open('E1', ID):
+        return
+    import shutil
+    work = pyh.fresh_dir('c14e1')
+    try:
+        files = {'inc.xml': '<x><enum name="IE0"><enum-member name="IE0_a" value="3"/></enum></x>',
+                 'm.xml': '<x><xi:include xmlns:xi="http://www.w3.org/2001/XInclude" href="inc.xml"/>'
+                          '<constant name="K" value="IE0_a + 1"/></x>'}
+        for fn, text in files.items():
+            with open(os.path.join(work, fn), 'w') as f:
+                f.write(text)
+        pyh.run_prophyc(['--isar', '--python_out', work, os.path.join(work, 'm.xml'), os.path.join(work, 'inc.xml')])
+        try:
+            work, mod = import_py(work, None)
+            ok = getattr(mod, 'K', None) == 4
+        except NameError as ex:
+            if 'IE0_a' in str(ex):
+                stats.known_finding('E1', {'files': files, 'error': 'NameError: %s' % ex})
+                return
+            raise
+        if not ok:
+            stats.violations.append({'what': 'E1 reproduction: K is %r, integer arithmetic gives 4' % getattr(mod, 'K', None),
+                                     'case': {'details': {'files': files}}})
+    finally:
+        shutil.rmtree(work, ignore_errors=True)
+
+
 def regress(stats):
     """Replay tier: saved inputs {isar, files: {name: text} (main file m.xml / m.prophy), expect: {consts: {name: int},
     lengths: {'Struct.field': n}}} of defects found earlier; the generated Python module must give exactly these."""
@@ -486,6 +534,7 @@ def run(tier, seed):
     t0 = time.time()
     stats = runner.run_workers(__name__, 'worker', seed, tier)
     regress(stats)
+    e1_reproduction(stats)
     return runner.finish(ID, tier, seed, LEVEL, RULE, stats, t0, ASSUME)
 
 
